@@ -42,6 +42,12 @@ CHECKS["C17"] = dict(
     text="~12k executions / ~400k checked call frames per quick run over generated programs (recursion, nested calls, loops) and corpus functions, alternating linear and non-linear ap-change solvers; static layout invariants checked for every compiled program.",
     note="Trusted: frames are delimited by call/ret of the compiled instruction list (pcs beyond it - const segments, footer - are bare rets).")
 
+CHECKS["C05"] = dict(
+    level="exploration", design="DESIGN.md 3/C05",
+    technique="metamorphic property-based testing: same program and inputs under two compiler configurations (optimisations, inlining strategy, const folding, numeric-match threshold, gas/ap solver) must give the same pointer-aware result",
+    text="~1,700 configuration pairs / ~10k paired executions per quick run over generated programs and corpus functions (e2e snippets, examples); two thirds of the pairs provably change the generated Sierra (measured), so the comparison is not vacuous.",
+    note="Trusted: my result normaliser (arrays/boxes by content, enum padding ignored, dictionaries opaque). Excluded by the statement: gas-introspection functions and pairs ending 'Out of gas'.")
+
 PENDING_REASON = "check not built yet in this session (planned in DESIGN.md section 3; the property itself is amenable to the technique)"
 
 def main():
